@@ -124,3 +124,10 @@ if [ ! -f rsaInt.cert.pem ]; then
   rm -f t.csr t.ext
   openssl x509 -in cliint.cert.pem -noout -issuer
 fi
+# wave 7: certificates whose extended key usage lists only a purpose the library does not know
+if [ ! -f srvekuunk-sign.cert.pem ]; then
+  mk srvekuunk-sign "server.sim sign" digitalSignature 1.3.6.1.4.1.99999.1.1 server.sim
+  mk srvekuunk-enc  "server.sim enc"  keyEncipherment,dataEncipherment,keyAgreement 1.3.6.1.4.1.99999.1.1 server.sim
+  mk cliekuunk "client unknown eku" digitalSignature 1.3.6.1.4.1.99999.1.1 ""
+  openssl x509 -in cliekuunk.cert.pem -noout -ext extendedKeyUsage
+fi
